@@ -39,7 +39,7 @@ SVC = [
 POOL = {
     "url": URLS,
     "ofxhome": ["424", "900", "77"],
-    "version": [102, 103, 151, 160, 200, 202, 203, 211, 220],
+    "version": [102, 103, 151, 160, 200, 201, 202, 203, 210, 211, 220],
     "org": ["ORGA", "Org B", "o-c"],
     "fid": ["1001", "7", "F-9"],
     "appid": ["QWIN", "QBKS", "Money"],
@@ -154,10 +154,13 @@ class OfxgetWorld:
         if opt in BOOLS:
             return bool(ch.pick(label + ".bool", 2))
         if opt in LISTS:
-            n = 1 + ch.pick(label + ".len", 4)
+            n = 1 + ch.geometric(label + ".len", 1.6, 11)           # 1..12 accounts, mostly few
             out = []
             for _ in range(n):
-                ln = 1 + ch.pick(label + ".idlen", 8)
+                if out and ch.flag(label + ".dup", 0.08):
+                    out.append(out[ch.pick(label + ".dupof", len(out))])      # the same account twice
+                    continue
+                ln = 1 + ch.geometric(label + ".idlen", 4, 21)      # ids up to 22 characters
                 out.append("".join(ACCT_ALPHA[ch.pick(label + ".ch", len(ACCT_ALPHA))] for _ in range(ln)))
             return out
         pool = POOL[opt]
@@ -488,7 +491,7 @@ class OfxgetWorld:
                 nfu = s.hdr.get("NEWFILEUID")
                 if (nfu == "NONE") != bool(expect["nonewfileuid"]):
                     self.violate("C18", "L1w-wire", "nonewfileuid", f"{where}: NEWFILEUID={nfu!r}, effective setting nonewfileuid={expect['nonewfileuid']}")
-            dest = (s.conn.scheme, s.conn.host, s.conn.port, s.path)
+            dest = (s.conn.scheme, s.conn.host.lower(), s.conn.port, s.path)
             if is_prof or expect["skipprofile"]:
                 if dest != peers.url_parts_q(expect["url"]):
                     self.violate("C18", "L1w-wire", "url", f"{where}: effective url is {expect['url']!r}")
@@ -677,7 +680,8 @@ def fmt(items):
 # ---------------------------------------------------------------------------------------------------
 # driver
 # ---------------------------------------------------------------------------------------------------
-DATES = ["20200101", "20191231235959", "20200315120000.000[-5:EST]", "20210704080000[+2:EET]", "20180228"]
+DATES = ["20200101", "20191231235959", "20200315120000.000[-5:EST]", "20210704080000[+2:EET]", "20180228",
+         "20200229", "19991231235959.999", "20200315120000[0:GMT]", "20201101013000.000[-8:PST]", "20240630"]
 
 
 def draw_accounts(world):
@@ -685,13 +689,16 @@ def draw_accounts(world):
     spec = []
     bankid = POOL["bankid"][ch.pick("acct.bankid", 3)]
     brokerid = POOL["brokerid"][ch.pick("acct.brokerid", 2)]
-    n = ch.pick("acct.n", 7)
+    n = ch.geometric("acct.n", 3, 14)
     for i in range(n):
         kind = ["bank", "cc", "inv"][ch.pick("acct.kind", 3)]
         status = ["ACTIVE", "PEND", "AVAIL"][ch.weighted("acct.status", [3, 1, 1])]
-        ln = 1 + ch.pick("acct.idlen", 8)
+        ln = 1 + ch.geometric("acct.idlen", 4, 19)
         acctid = "".join(ACCT_ALPHA[ch.pick("acct.ch", len(ACCT_ALPHA))] for _ in range(ln)) + str(i)
+        if spec and ch.flag("acct.shared_number", 0.1):
+            acctid = spec[ch.pick("acct.shared_of", len(spec))]["acctid"]     # same number under another type/class
         a = {"kind": kind, "acctid": acctid, "status": status}
+        a["group"] = bool(spec) and ch.flag("acct.same_aggregate", 0.25)      # share the previous ACCTINFO aggregate
         if kind == "bank":
             a["bankid"] = bankid
             a["accttype"] = (BANKTYPES + ["CD"])[ch.weighted("acct.type", [3, 3, 2, 2, 1])]
